@@ -429,3 +429,130 @@ Proof.
     rewrite strip_nonblank; [reflexivity|]. rewrite (Hall a (or_introl eq_refl)). reflexivity.
   - apply (header_line (S n) mk title [] s Hq Hoff Hmk Ht).
 Qed.
+
+(* ---- C17: an escaped header line is a paragraph with the literal text ---- *)
+Definition esc_alphabet : list char := safe_alphabet ++ [hash; 92].
+
+Lemma escaped_header_facts :
+  forallb (fun d => never_matches esc_alphabet [92] (re_ast (l_re d))) before_header = true /\
+  forallb (fun d => never_matches h_alphabet [hash] (re_ast (l_re d))) (skipn 7 lineblocks_defs) = true /\
+  forallb (fun d => never_matches h_alphabet [hash] (re_ast (li_re d))) lists_defs = true /\
+  forallb (fun d => never_matches h_alphabet [hash] (re_ast (d_openRe d))) (removelast dblocks_default) = true.
+Proof. repeat split; vm_compute; reflexivity. Qed.
+
+Lemma hd_line_over mk title : marker_ok mk -> title_ok title -> over h_alphabet (hd_line mk title).
+Proof.
+  intros (_ & Hall & _) [Htitle _] x Hx. unfold hd_line in Hx. unfold h_alphabet. apply in_or_app.
+  apply in_app_or in Hx as [Hx|[<-|Hx]]; [right; left; symmetry; apply Hall; exact Hx|left; vm_compute; intuition|left; auto].
+Qed.
+
+Lemma hd_line_first mk title : marker_ok mk -> exists t, hd_line mk title = hash :: t.
+Proof.
+  intros (Hne & Hall & _). unfold hd_line. destruct mk as [|a mk0]; [congruence|]. rewrite (Hall a (or_introl eq_refl)). cbn [app]. eauto.
+Qed.
+
+Lemma hd_nomatch (r : cre) mk title : marker_ok mk -> title_ok title ->
+  never_matches h_alphabet [hash] (re_ast r) = true -> re_search r (hd_line mk title) = None.
+Proof.
+  intros Hmk Ht H. destruct (hd_line_first mk title Hmk) as (t & E). pose proof (hd_line_over mk title Hmk Ht) as Ho. rewrite E in *.
+  eapply never_matches_sound; [exact H|left; reflexivity|exact Ho].
+Qed.
+
+Lemma hd_escaped_exists mk title : marker_ok mk -> title_ok title ->
+  exists s', mx (re_ast hdre) (mkSt 0 None (92 :: mk ++ 32 :: title) []) s'.
+Proof.
+  intros (Hne & Hall & Hlen) [Htitle (c & t & Et & Hc & _)]. destruct hdre_shape as (Sh & _ & _ & _ & Hh & H32 & Hsp). rewrite Sh. cbn [mx].
+  set (cap1 := (1%nat, {| c_s := 0 + 1; c_e := 0 + 1 + lenN mk; c_txt := mk ++ 32 :: title |})).
+  assert (Hnl : forall x, In x title -> x <> 10) by (intros x Hx; apply Htitle in Hx; apply safe_char_h in Hx; tauto).
+  eexists.
+  exists (mkSt 0 None (92 :: mk ++ 32 :: title) []). split; [split; reflexivity|].
+  exists (mkSt (0 + 1) (Some 92) (mk ++ 32 :: title) []). split.
+  { exists 1%nat. split; [|split; [lia|unfold max_ok; lia]]. cbn [iterR mx].
+    exists (mkSt (0 + 1) (Some 92) (mk ++ 32 :: title) []). split; [|reflexivity]. exists 92, (mk ++ 32 :: title). cbn. auto. }
+  exists (mkSt (0 + 1 + lenN mk) (last_of (Some 92) mk) (32 :: title) [cap1]). split.
+  { exists (mkSt (0 + 1 + lenN mk) (last_of (Some 92) mk) (32 :: title) []). split; [|reflexivity].
+    exists (length mk). split; [apply iter_set_intro; intros x Hx; rewrite (Hall x Hx); exact Hh|].
+    split; [destruct mk; [congruence|cbn [length]; lia]|unfold max_ok; lia]. }
+  exists (mkSt (0 + 1 + lenN mk + 1) (Some 32) title [cap1]). split.
+  { exists 1%nat. split; [|split; [lia|exact Logic.I]]. cbn [iterR mx].
+    exists (mkSt (0 + 1 + lenN mk + 1) (Some 32) title [cap1]). split; [|reflexivity].
+    exists 32, title. cbn [st_rest st_i st_p st_c]. split; [reflexivity|]. split; [rewrite Hsp; reflexivity|reflexivity]. }
+  set (fin := mkSt (0 + 1 + lenN mk + 1 + lenN title) (last_of (Some 32) title) []
+                   ((2%nat, {| c_s := 0 + 1 + lenN mk + 1; c_e := 0 + 1 + lenN mk + 1 + lenN title; c_txt := title |}) :: [cap1])).
+  exists fin. split.
+  { exists (mkSt (0 + 1 + lenN mk + 1 + lenN title) (last_of (Some 32) title) [] [cap1]). split; [|reflexivity].
+    exists (length title). split.
+    - pose proof (iter_any_intro title (0 + 1 + lenN mk + 1) (Some 32) [] [cap1] Hnl) as Hi. rewrite app_nil_r in Hi. exact Hi.
+    - split; [rewrite Et; cbn [length]; lia|exact Logic.I]. }
+  exists fin. split; [exists O; cbn; repeat split; lia|]. split; reflexivity.
+Qed.
+
+Lemma hd_escaped_match mk title : marker_ok mk -> title_ok title ->
+  exists m t, re_search hdre (92 :: hd_line mk title) = Some m /\ grp0 m = 92 :: t.
+Proof.
+  intros Hmk Ht. destruct hdre_shape as (_ & _ & Hwf & Hn & _).
+  destruct (hd_escaped_exists mk title Hmk Ht) as (s' & M).
+  assert (Hex : match_at hdre 0 None (92 :: hd_line mk title) <> None) by (apply (proj2 (match_at_iff _ _ _ _ Hwf)); eauto).
+  destruct (match_at hdre 0 None (92 :: hd_line mk title)) as [m|] eqn:E; [|congruence].
+  exists m. pose proof (search_of_match_at _ _ _ _ _ E) as Hs. fold (re_search hdre (92 :: hd_line mk title)) in Hs.
+  pose proof (match_at_start _ _ _ _ _ E) as Hst.
+  destruct (re_search_spec _ _ _ Hs) as [pre w post p fin Htext Hst' Hen Hg Mrun Hrest Hwfc].
+  assert (pre = []) by (apply lenN_0; lia). subst pre. cbn [app] in Htext.
+  pose proof (proj2 (proj1 nonnull_consumes _ _ _ Mrun) Hn) as Hlt. cbn [st_rest] in Hlt. rewrite Hrest, app_length in Hlt.
+  destruct w as [|w0 w]; [simpl in Hlt; lia|]. cbn [app] in Htext. inversion Htext; subst w0.
+  exists w. split; [exact Hs|]. unfold grp0, grp_s, grp. rewrite Hg. reflexivity.
+Qed.
+
+Section Escaped.
+Variable fuel' : nat.
+Let fuel := S (S (S (S fuel'))).
+Variable doc : str -> M str.
+
+Lemma escaped_header_line mk title s : marker_ok mk -> title_ok title ->
+  lineblocks_render fuel [92 :: hd_line mk title] [] s = Ok ((None, [hd_line mk title]), s).
+Proof.
+  intros Hmk Ht. destruct header_facts as (Fv & Ff & Fng & Fsplit & _).
+  destruct escaped_header_facts as (Fb & Fa & _ & _).
+  destruct (hd_escaped_match mk title Hmk Ht) as (m & t & Hm & G0).
+  unfold lineblocks_render. rewrite Fsplit. rewrite lineblocks_loop_skip.
+  2:{ intros d Hd0. rewrite forallb_forall in Fb. specialize (Fb d Hd0).
+      eapply never_matches_sound; [exact Fb|left; reflexivity|].
+      pose proof (hd_line_over mk title Hmk Ht) as Ho. unfold esc_alphabet. intros x [<-|Hx]; apply in_or_app; [right; right; left; reflexivity|].
+      apply Ho in Hx. unfold h_alphabet in Hx. apply in_app_or in Hx as [Hx|[<-|[]]]; [left; exact Hx|right; left; reflexivity]. }
+  rewrite lineblocks_loop_unfold. cbn [andb]. fold hdre. rewrite Hm. rewrite G0. replace (92 =? 92) with true by reflexivity. cbn [tl].
+  rewrite <- (app_nil_r (skipn 7 lineblocks_defs)). rewrite lineblocks_loop_skip.
+  - reflexivity.
+  - intros d Hd0. rewrite forallb_forall in Fa. apply hd_nomatch; auto.
+Qed.
+
+Theorem escaped_header_document mk title s : quiet_default s -> marker_ok mk -> title_ok title ->
+  doc_loop fuel doc (S (S fuel')) [92 :: hd_line mk title] s = Ok ($"<p>" ++ escape (hd_line mk title) ++ $"</p>", s).
+Proof.
+  intros Hq Hmk Ht. destruct escaped_header_facts as (_ & _ & Fli & Fdb).
+  destruct (hd_line_first mk title Hmk) as (t0 & E0).
+  rewrite (TableFacts.doc_loop_delimited_block fuel doc (S fuel') [92 :: hd_line mk title] (92 :: hd_line mk title) []
+             [hd_line mk title] [hd_line mk title] ($"<p>" ++ escape (hd_line mk title) ++ $"</p>") [] s s s s).
+  - rewrite (TableFacts.doc_loop_blank_only fuel doc fuel' [] s) by reflexivity. rewrite app_nil_r. reflexivity.
+  - cbn [skipBlankLines]. rewrite strip_nonblank; reflexivity.
+  - apply escaped_header_line; assumption.
+  - unfold lists_render, bind, matchItem. rewrite matchItem_loop_none; [reflexivity|].
+    intros d Hd. rewrite forallb_forall in Fli. apply hd_nomatch; auto.
+  - apply (g_stage_para' (hd_line mk title) (escape (hd_line mk title)) fuel' doc s).
+    + rewrite E0. eauto.
+    + intros x Hx. apply (hd_line_chars mk title Hmk Ht x Hx).
+    + intros k. unfold replaceInline_top, replaceInline, para_expand. cbn [truthy e_macros e_spans].
+      unfold macros_render_top. rewrite macros_render_identity.
+      * rewrite ibind_iret_l. apply spans_render_plain; [apply quiet_defaults; exact Hq|].
+        intros x Hx. apply (hd_line_over mk title Hmk Ht) in Hx. unfold h_alphabet in Hx.
+        apply in_app_or in Hx as [Hx|[<-|[]]]; [apply (safe_over_plain [x]); [intros y [<-|[]]; exact Hx|left; reflexivity]|].
+        destruct header_facts as (_ & _ & _ & _ & _ & _ & Fpl). exact Fpl.
+      * intros x Hx. apply (hd_line_over mk title Hmk Ht) in Hx. unfold h_alphabet in Hx.
+        apply in_app_or in Hx as [Hx|[<-|[]]]; [pose proof safe_no_macro_start as H; rewrite forallb_forall in H; auto|].
+        destruct header_facts as (_ & _ & _ & _ & _ & Fms & _). exact Fms.
+      * apply negb_true_iff. destruct (existsb (N.eqb 2) (hd_line mk title)) eqn:E; [|reflexivity].
+        apply existsb_exists in E as (x & Hx & Ex). apply N.eqb_eq in Ex. subst x.
+        destruct (hd_line_chars mk title Hmk Ht 2 Hx) as [_ Hr]. discriminate Hr.
+    + intros d Hd. rewrite forallb_forall in Fdb. apply hd_nomatch; auto.
+    + exact Hq.
+Qed.
+End Escaped.
